@@ -104,7 +104,7 @@ UNIT = Unit(
            subst=[cg.ERR, ("self.compile_meta_export(*meta_id, *name, value_register)?;", "self.compile_meta_export(Self::meta_key_id_copy(meta_id), *name, value_register)?;", 1),
                   (r"let value_result_register = match local_assign_register\.first\(\) \{\s*Some\(local\) => ResultRegister::Fixed\(\*local\),\s*None => ResultRegister::Any,\s*\};",
                            "let value_result_register = if local_assign_register.len() > 0 { ResultRegister::Fixed(local_assign_register[0]) } else { ResultRegister::Any };", 1, "re")],
-           before=[("self.pop_span();", "assert(self.g@.spans.drop_last() =~= old(self).g@.spans);", -1)],
+           before=[(("self.pop_span();", "Ok(result)"), "assert(self.g@.spans.drop_last() =~= old(self).g@.spans);", -1)],
            spec=r"""
     requires old(self).g@.spans.len() > 0,
     ensures
